@@ -1,6 +1,7 @@
 """Property table and the common decision procedure."""
 import json
 import os
+import re
 import time
 
 from . import common as C
@@ -95,7 +96,7 @@ PROPS = {
                 theorems=[thm("C13_exported_spec", "P_C13"), thm("C13_table", "P_C13"),
                           thm("C13_initialism_any_case", "P_C13"), thm("C13_unnamed_rule", "P_C13"),
                           thm("C13_user_name_verbatim", "P_C13"), thm("C13_kept_partial", "P_C13")],
-                oracle=O.o_c13, known=[]),
+                oracle=O.o_c13, known=["transient_qualifier_rename"]),
     "C14": dict(kind="gen", files=["Sites_Proofs.v", "gen/Sites.v"],
                 theorems=[thm("C14_map_range_sites", "Sites_Proofs")], oracle=O.o_c14,
                 known=["rename_order_dependent"]),
@@ -124,6 +125,59 @@ PROPS = {
 }
 
 OK_VERDICTS = {"ok", "ok-proj", "ok-err", "ok-diverges", "ok-crash", "skip-order"}
+
+
+def proj_sections(text, sep):
+    out = dict(pkg=[], imp=[], mock=[], tp=[], m=[], pname=[], ptype=[], ptype_unq=[], r=[], r_unq=[])
+    cur = ""
+    for line in [" ".join(x.split()) for x in text.split(sep) if x.strip()]:
+        f = line.split(" ")
+        k = f[0]
+        if k == "pkg":
+            out["pkg"].append(line)
+        elif k == "imp":
+            out["imp"].append(line)
+        elif k == "mock":
+            cur = f[1] if len(f) > 1 else ""
+            out["mock"].append(line)
+        elif k == "tp":
+            out["tp"].append(cur + " " + line)
+        elif k == "m":
+            cur_m = f[1] if len(f) > 1 else ""
+            out["m"].append(cur + " " + line)
+        elif k == "imp":
+            out["imp"].append(line)
+        elif k == "p":
+            name, ty = (f[1], f[2]) if len(f) > 2 else ("", f[1] if len(f) > 1 else "")
+            out["pname"].append(name)
+            out["ptype"].append(ty)
+            out["ptype_unq"].append(re.sub(r"[A-Za-z_][A-Za-z0-9_]*\.", "", ty))
+        elif k == "r":
+            ty = f[1] if len(f) > 1 else ""
+            out["r"].append(ty)
+            out["r_unq"].append(re.sub(r"[A-Za-z_][A-Za-z0-9_]*\.", "", ty))
+    return out
+
+
+# which parts of the generated structure a property is about
+RELEVANT_DIFF = {
+    "C01": None, "C14": None, "C16": None, "C19": None,       # anything
+    "C02": {"m", "ptype_unq", "r_unq", "mock"},
+    "C09": {"tp", "ptype_unq", "r_unq"},
+    "C10": {"pkg", "imp", "ptype", "r"},
+    "C11": {"imp"},
+    "C12": {"pname", "imp"},
+    "C13": {"pname"},
+    "C20": {"mock", "m"},
+}
+
+
+def diff_kinds(cr):
+    mp, op = cr.get("model_proj"), cr.get("observed_proj")
+    if not mp or not op:
+        return None
+    a, b = proj_sections(mp, ";;"), proj_sections(op, "\n")
+    return set(k for k in a if a[k] != b[k])
 
 
 def first_difference(model, observed):
@@ -198,14 +252,24 @@ def run(ctx):
             if cr["verdict"] is None:
                 continue
             if cr["verdict"] not in OK_VERDICTS:
-                corr_breaks.append(dict(what="model and implementation disagree (%s)" % cr["verdict"],
-                                        case=sample_case(cr)))
+                kinds = diff_kinds(cr) if cr["verdict"] == "DIFF-structure" else None
+                rel = RELEVANT_DIFF.get(ctx.pid)
+                if kinds is None or rel is None or (kinds & rel):
+                    corr_breaks.append(dict(what="model and implementation disagree (%s%s)" %
+                                            (cr["verdict"], "" if kinds is None else ": " + ",".join(sorted(kinds))),
+                                            case=sample_case(cr)))
+                else:
+                    notes.append("%s: model and implementation differ only in %s, which this property is not about"
+                                 % (cr["case"]["id"], ",".join(sorted(kinds))))
             fails = spec["oracle"](cr)
             key = json.dumps([cr["case"]["args"], cr["case"]["pkg"], cr["case"]["stub"], cr["case"]["skip"],
                               cr["case"]["resets"], sorted((cr.get("src") or {}).items())], sort_keys=True)
             if cr["kind"] == "out" and (cr["facts"].get("mocks") or []):
                 nontrivial.add(key)
             fams = set(cr["families"])
+            for _, sym in fails:
+                if sym == "transient_qualifier_rename":
+                    fams.add("transient_qualifier_rename")
             if cr["verdict"] == "ok-diverges":
                 fams.add("alias_resolution_diverges")
             if cr["verdict"] == "ok-crash":
